@@ -1,7 +1,7 @@
 #!/bin/bash
 # usage: mutant_round.sh <PROP> <worktree> [tier]  -- confirm + evaluate every out/patchN.diff of a sub-agent's worktree; log to /verif/work/round-<PROP>.log
 P=$1; WT=$2; TIER=${3:-quick}
-export CARGO_PROFILE_DEV_DEBUG=0 CARGO_PROFILE_TEST_DEBUG=0
+export CARGO_INCREMENTAL=0 CARGO_PROFILE_DEV_DEBUG=0 CARGO_PROFILE_TEST_DEBUG=0
 L=/verif/work/round-$P.log; : > $L
 for n in 1 2 3; do
   [ -f $WT/out/patch$n.diff ] || continue
